@@ -1,6 +1,7 @@
 CONSTANTS
   V = {"opt_abort"}
   MaxN = 3
+  Vary = FALSE
 SPECIFICATION Spec
 INVARIANTS TypeOK OptionalFailureIsolated
 CHECK_DEADLOCK FALSE
